@@ -1,0 +1,11 @@
+//go:build verif
+
+package security
+
+// Thin aliases of unexported functions, for the differential verification harness only.
+
+func VerifMulx(V, c uint64) uint64                              { return mulx(V, c) }
+func VerifMulxPow(V, i, c uint64) uint64                        { return mulxPow(V, i, c) }
+func VerifMul(V, P, c uint64) uint64                            { return mul(V, P, c) }
+func VerifGetWord(stream []uint32, i int) uint32                { return getWord(stream, i) }
+func VerifGenMac(m []byte, stream []uint32, blength int) []byte { return genMac(m, stream, blength) }
